@@ -52,6 +52,12 @@ type vfsCase struct {
 	Seed   int64     `json:"seed"`
 	PClose int       `json:"pclose"` // a reader closes before its next Recv with probability pclose/16
 	Rounds int       `json:"rounds"` // mode "burst": number of rounds
+	Pre    []vfsPre  `json:"pre"`    // operations executed (and logged) during construction, right before node `at` is built
+}
+
+type vfsPre struct {
+	At  int     `json:"at"`
+	Ops []vfsOp `json:"ops"`
 }
 
 type vfsErr struct{ code int }
@@ -94,7 +100,8 @@ type vfsTree struct {
 	writers map[int]*StreamWriter[int]
 	leaves  []int
 	pipes   []int
-	sent    map[int]int // items already sent during construction (pre-reads)
+	sent    map[int]int  // items already sent during construction (pre-reads)
+	wclosed map[int]bool // writers already closed during construction
 }
 
 // root pipe below reader node id (following the first source), 0 when the root is an array
@@ -111,14 +118,32 @@ func vfsRootPipe(nodes []vfsNode, id int) int {
 	}
 }
 
-func vfsBuild(nodes []vfsNode, pre *vfsLog) *vfsTree {
-	t := &vfsTree{readers: map[int]*StreamReader[int]{}, writers: map[int]*StreamWriter[int]{}, sent: map[int]int{}}
+func vfsBuild(nodes []vfsNode, pre *vfsLog, scripts ...vfsPre) *vfsTree {
+	t := &vfsTree{readers: map[int]*StreamReader[int]{}, writers: map[int]*StreamWriter[int]{}, sent: map[int]int{}, wclosed: map[int]bool{}}
 	copies := map[int][]*StreamReader[int]{}
 	used := map[int]bool{}
 	for i, n := range nodes {
 		id := i + 1
 		for _, s := range n.Src {
 			used[s] = true
+		}
+		// "use a reader, then build on it": e.g. read a merged reader until a source was seen ending, then merge it again
+		for _, sc := range scripts {
+			if sc.At != id {
+				continue
+			}
+			for _, op := range sc.Ops {
+				switch op.Op {
+				case "send":
+					vfsSend(pre, t.writers[op.A], op.A, nodes[op.A-1].Items[t.sent[op.A]])
+					t.sent[op.A]++
+				case "closeSend":
+					vfsCloseSend(pre, t.writers[op.A], op.A)
+					t.wclosed[op.A] = true
+				case "recv":
+					vfsRecv(pre, t.readers[op.A], op.A)
+				}
+			}
 		}
 		switch n.K {
 		case "pipe":
@@ -297,6 +322,9 @@ func vfsRunConc(c *vfsCase, t *vfsTree) ([]*vfsLog, bool) {
 			r := rand.New(rand.NewSource(c.Seed*1000 + int64(p)))
 			sw := t.writers[p]
 			<-start
+			if t.wclosed[p] {
+				return
+			}
 			for _, it := range c.Tree[p-1].Items[t.sent[p]:] {
 				vfsJitter(r)
 				if vfsSend(l, sw, p, it) {
@@ -437,7 +465,7 @@ func TestVerifStreams(t *testing.T) {
 		go func() { // construction performs the pre-reads of "read k, then Copy" cases: guarded like every other call
 			defer close(bdone)
 			defer vfsGuard(pre, 0, nil)
-			tree = vfsBuild(c.Tree, pre)
+			tree = vfsBuild(c.Tree, pre, c.Pre...)
 		}()
 		var logs []*vfsLog
 		var hung bool
